@@ -8,6 +8,7 @@ package absnfs
 import (
 	"container/list"
 	"os"
+	"strings"
 	"sync"
 	"sync/atomic"
 	"time"
@@ -304,6 +305,21 @@ func (c *AttrCache) Invalidate(path string) {
 
 	c.removeFromAccessLog(path)
 	delete(c.cache, path)
+}
+
+// InvalidateTree removes the entry for path and every entry (positive or
+// negative) below it. This is called when a directory is renamed.
+func (c *AttrCache) InvalidateTree(path string) {
+	c.mu.Lock()
+	defer c.mu.Unlock()
+
+	prefix := strings.TrimSuffix(path, "/") + "/"
+	for p := range c.cache {
+		if p == path || strings.HasPrefix(p, prefix) {
+			c.removeFromAccessLog(p)
+			delete(c.cache, p)
+		}
+	}
 }
 
 // Clear removes all entries from the cache
@@ -622,6 +638,21 @@ func (c *DirCache) Invalidate(path string) {
 
 	c.removeFromAccessList(path)
 	delete(c.entries, path)
+}
+
+// InvalidateTree removes the listing for path and every listing below it.
+// This is called when a directory is renamed.
+func (c *DirCache) InvalidateTree(path string) {
+	c.mu.Lock()
+	defer c.mu.Unlock()
+
+	prefix := strings.TrimSuffix(path, "/") + "/"
+	for p := range c.entries {
+		if p == path || strings.HasPrefix(p, prefix) {
+			c.removeFromAccessList(p)
+			delete(c.entries, p)
+		}
+	}
 }
 
 // Clear removes all entries from the cache
